@@ -451,7 +451,6 @@ theorem decode_encode_patched_all (buf : List Nat) (size n fl : Nat) (rest : Lis
     (hb : BytesOk buf) (hn1 : 1 ≤ n) (hn8 : n ≤ 8) (hfl : fl < 2 ^ n)
     (hl : LegalRunP n (encOp (encInit buf size) (.encodeBin fl (fl + 1) n)) rest)
     (hnb : (encodeAll buf size (.encodeBin fl (fl + 1) n :: rest)).nbitsTotal < 4294967296)
-    (hS : 0 < (encodeAll buf size (.encodeBin fl (fl + 1) n :: rest)).storage)
     (herr : (encodeAll buf size (.encodeBin fl (fl + 1) n :: rest)).error = 0) :
     MatchAll (.encodeBin (lastPatch fl rest) (lastPatch fl rest + 1) n :: rest)
       (decRun (decInit ((encodeAll buf size (.encodeBin fl (fl + 1) n :: rest)).buf.take
@@ -468,8 +467,8 @@ theorem decode_encode_patched_all (buf : List Nat) (size n fl : Nat) (rest : Lis
         (.encodeBin (lastPatch fl rest) (lastPatch fl rest + 1) n :: rest)).2
       ((encodeAll buf size (.encodeBin fl (fl + 1) n :: rest)).buf.take
         (encodeAll buf size (.encodeBin fl (fl + 1) n :: rest)).storage) := by
-  unfold encodeAll at hnb hS herr ⊢
-  simp only [encRun] at hnb hS herr ⊢
+  unfold encodeAll at hnb herr ⊢
+  simp only [encRun] at hnb herr ⊢
   generalize he1 : encOp (encInit buf size) (.encodeBin fl (fl + 1) n) = e1 at *
   have herrF : (encRun e1 rest).error = 0 := by
     apply Classical.byContradiction; intro hne
@@ -489,8 +488,20 @@ theorem decode_encode_patched_all (buf : List Nat) (size n fl : Nat) (rest : Lis
     rw [← he1]; exact cell_first buf size n fl hs hb hn1 hn8 hfl (by rw [he1]; exact hn1') (by rw [he1]; exact herr1)
   obtain ⟨_, riF, cellF, b3, b4⟩ := run_backP n rest e1 fl ri1 hcell1 hl hnF herrF
   obtain ⟨_, d1, d2, d3, d4, d5⟩ := encDone_spec (encRun e1 rest) riF.inv riF.raw riF.bytes hnF herr
+  have hS : 0 < (encRun e1 rest).storage := by
+    apply encDone_storage_pos _ riF.inv hnF herr
+    by_cases hM : 1 ≤ encM (encRun e1 rest)
+    · exact Or.inl hM
+    · right
+      obtain ⟨_, c2, c3, c4, _⟩ := cellF
+      have hM0 : encM (encRun e1 rest) = 0 := by omega
+      unfold cellSz at c3 c4
+      rw [hM0, Nat.pow_zero, Nat.mul_one, Nat.add_mul, Nat.one_mul] at c4
+      rw [hM0, Nat.pow_zero, Nat.mul_one] at c3
+      have : 2 ^ (31 - n) ≤ 2 ^ 30 := Nat.pow_le_pow_right (by decide) (by omega)
+      omega
   generalize encDone (encRun e1 rest) = eD at *
-  rw [d1] at hS ⊢
+  rw [d1]
   generalize hSS : (encRun e1 rest).storage = S at *
   generalize hw : lastPatch fl rest = w at *
   have hBt : BytesOk (eD.buf.take S) := bytesOk_take d3 _
